@@ -737,10 +737,23 @@ class Executor:
         if self.contract.merge and id(s) not in self.no_merge and not self.in_merge:
             if self.try_merge_if(s, t, env):
                 return
-        if self.decide(t, f"if@L{s.lineno}"):
+        taken = self.decide(t, f"if@L{s.lineno}")
+        self.narrow_optional(s.test, taken, env)
+        if taken:
             self.exec_block(s.body, env)
         else:
             self.exec_block(s.orelse, env)
+
+    def narrow_optional(self, test, taken, env):
+        """`if x is not None:` / `if x is None:` - on the branch where x is known not None, x is its value."""
+        if isinstance(test, ast.Compare) and len(test.ops) == 1 and isinstance(test.left, ast.Name) and \
+                isinstance(test.comparators[0], ast.Constant) and test.comparators[0].value is None:
+            notnone = taken if isinstance(test.ops[0], ast.IsNot) else (not taken) if isinstance(test.ops[0], ast.Is) else None
+            v = env.get(test.left.id)
+            if notnone and isinstance(v, SOpt):
+                env[test.left.id] = v.val
+            elif notnone is False and isinstance(v, SOpt):
+                env[test.left.id] = None
 
     # ---- if-merging (used for long chains of independent flag tests)
     def try_merge_if(self, s, t, env):
@@ -824,6 +837,8 @@ class Executor:
         """Invariant cut of a loop.  spec: LoopSpec(invariant=[exprs], decreases=expr, modifies=[...])."""
         L = s.lineno
         tag = f"loop@L{L}"
+        for g in spec.pre:
+            g(self, env)
         # 1. invariant on entry
         for i, inv in enumerate(spec.invariants):
             self.oblige(f"{tag}/inv{i}-entry", self.spec_bool(inv, env, spec.hints), "loop-entry", L)
@@ -1073,7 +1088,7 @@ class Executor:
 
     # ================================================================ expressions
     def eval(self, e, env):
-        if self.contract.opaque and not self.in_spec and isinstance(e, (ast.Attribute, ast.Subscript, ast.Call)):
+        if self.contract.opaque and not self.in_spec and isinstance(e, (ast.Attribute, ast.Subscript, ast.Call, ast.ListComp, ast.DictComp, ast.GeneratorExp)):
             k = self.contract.opaque.get(ast.unparse(e))
             if k is not None:
                 if callable(k):
